@@ -17,6 +17,11 @@
    Deviations of the pinned tree are named constants:
      WriterRestored = FALSE   a panic inside a call left the output writer swapped
      LoopReleases   = FALSE   an error/break/return inside a counted loop leaked its register
+     DepthBalanced  = FALSE   a break / continue that reaches the end of a function body returns without giving its depth
+                              level back (the counter is only reset by a recovered panic)
+     ParserFresh    = FALSE   the parser object is reused from input to input and "nesting too deep" is never re-armed
+     ErrorsNotCached = FALSE  error results are memoized: a deadline that expired inside a pure recursive function is
+                              replayed to later calls whose arguments were on the failing stack
    FailureIsInvisible: between inputs the session is always in the clean state, so a good
    input behaves as if the failing inputs had never been submitted.  With both constants TRUE
    it holds; with either FALSE TLC finds the history (for the register leak: 8 failing
@@ -26,12 +31,13 @@
    interpreter and compared with the real run of the same history without the failing inputs. *)
 EXTENDS Integers, Sequences, TLC, Json, GrolPrims
 
-CONSTANTS NumRegisters, MaxOps, Bursts, WriterRestored, LoopReleases, MacroStateFresh, EmitOn
+CONSTANTS NumRegisters, MaxOps, Bursts, WriterRestored, LoopReleases, MacroStateFresh, DepthBalanced, ParserFresh, ErrorsNotCached, EmitOn
 
 \* "loopvar" reads a counted-loop variable after its loop (hidden while registers are available); "deep" recurses to just
 \* below the depth limit (fails if a failed input left depth levels behind)
 \* "macro" expands and evaluates a macro call (fails if a failed expansion left the macro evaluator dirty)
-GoodKinds == {"print", "loop", "call", "define", "incr", "loopvar", "deep", "macro"}
+\* "slowcall" calls a pure recursive function with an argument that was on the stack of a "deadline-in-pure-recursion" failure
+GoodKinds == {"print", "loop", "call", "define", "incr", "loopvar", "deep", "macro", "slowcall"}
 FailKinds == {"err-nested-calls", "err-in-top-loop", "err-in-nested-loops", "panic-in-function", "depth-overflow", "deadline", "memory-guard",
               "panic-in-top-loop", "memory-guard-top-level", "depth-overflow-expression",
               \* a call written directly at the top level that fails while its arguments are bound (count, constant parameter)
@@ -40,22 +46,29 @@ FailKinds == {"err-nested-calls", "err-in-top-loop", "err-in-nested-loops", "pan
               "depth-overflow-in-macro-body", "error-in-macro-body", "deadline-in-macro-body",
               \* a panic after output was captured inside a call; inside a function of the grol-written library (its frames hang
               \* off another root environment); inside code run by eval() (a nested evaluation in the same state)
-              "print-then-panic-in-function", "depth-overflow-in-library-function", "depth-overflow-in-eval", "panic-in-eval"}
+              "print-then-panic-in-function", "depth-overflow-in-library-function", "depth-overflow-in-eval", "panic-in-eval",
+              \* inputs the parser refuses (nothing is evaluated): an ordinary syntax error, an unterminated string, nesting beyond the limit
+              "parse-error", "parse-error-unterminated", "parse-error-too-deep",
+              \* a break / continue that reaches the end of a function body (directly, and through calls made from a loop)
+              "break-reaches-function-end", "continue-reaches-function-end-in-loop",
+              \* a deadline expiring inside a pure (memoizable) recursive function
+              "deadline-in-pure-recursion"}
 
-VARIABLES writer, scope, depth, regs, macro, clean, hist
-vars == <<writer, scope, depth, regs, macro, clean, hist>>
+VARIABLES writer, scope, depth, regs, macro, parser, stale, clean, hist
+vars == <<writer, scope, depth, regs, macro, parser, stale, clean, hist>>
 view == vars   \* every history is a distinct behaviour to replay (the abstract state alone is tiny)
 
-Init == writer = "session" /\ scope = "top" /\ depth = 0 /\ regs = 0 /\ macro = 0 /\ clean = TRUE /\ hist = <<>>
+Init == writer = "session" /\ scope = "top" /\ depth = 0 /\ regs = 0 /\ macro = 0 /\ parser = "fresh" /\ stale = FALSE /\ clean = TRUE /\ hist = <<>>
 
 \* macro: depth levels left in the evaluator used for macro bodies (0 when every expansion gets a fresh one)
-IsClean == writer = "session" /\ scope = "top" /\ depth = 0 /\ regs = 0 /\ macro = 0
+\* parser: "fresh" or "stuck" (refuses everything after one too-deep input); stale: the memo cache holds an error result
+IsClean == writer = "session" /\ scope = "top" /\ depth = 0 /\ regs = 0 /\ macro = 0 /\ parser = "fresh" /\ ~stale
 
 \* a good input shows its normal output iff the session is clean (a counted loop also needs a register)
 Good(k) ==
   /\ Len(hist) < MaxOps
   /\ clean' = (clean /\ IsClean)
-  /\ UNCHANGED <<writer, scope, depth, regs, macro>>
+  /\ UNCHANGED <<writer, scope, depth, regs, macro, parser, stale>>
   /\ hist' = Append(hist, <<"good", k, 1>>)
 
 RECURSIVE After(_, _, _)
@@ -73,7 +86,10 @@ After(k, n, st) ==
 Fail(k, n) ==
   /\ Len(hist) < MaxOps
   /\ LET a == After(k, n, <<writer, regs, macro>>) IN writer' = a[1] /\ regs' = a[2] /\ macro' = a[3]
-  /\ UNCHANGED <<scope, depth, clean>>
+  /\ depth' = IF k \in {"break-reaches-function-end", "continue-reaches-function-end-in-loop"} /\ ~DepthBalanced THEN depth + n ELSE depth
+  /\ parser' = IF k = "parse-error-too-deep" /\ ~ParserFresh THEN "stuck" ELSE parser
+  /\ stale' = (stale \/ (k = "deadline-in-pure-recursion" /\ ~ErrorsNotCached))
+  /\ UNCHANGED <<scope, clean>>
   /\ hist' = Append(hist, <<"fail", k, n>>)
 
 Emit == EmitOn => EmitLine(ToJson([h |-> hist']))
